@@ -78,6 +78,7 @@ class Result:
         self.exhaustive = None
         self.calls = {}           # predicted call outcomes by kind (per call, not per scenario)
         self.by_spec = {}         # generator name -> scenarios
+        self.trig_counts = {}     # tag -> number of scenarios (all tags; hash sets are kept only for the property's own triggers)
 
     def merge(self, o):
         self.evaluations += o.evaluations
@@ -98,6 +99,8 @@ class Result:
             self.calls[k] = self.calls.get(k, 0) + v
         for k, v in o.by_spec.items():
             self.by_spec[k] = self.by_spec.get(k, 0) + v
+        for k, v in o.trig_counts.items():
+            self.trig_counts[k] = self.trig_counts.get(k, 0) + v
         self.violations += o.violations
         if len(self.samples) < 4:
             self.samples += o.samples[:4 - len(self.samples)]
@@ -234,6 +237,9 @@ def run_batch(prop, exe, meta, scen_list, res, timeout=180, leak=True):
         pending = rest[1:]
 
 
+KEEP_TAGS = None   # set by run_plan in the parent and passed to the workers
+
+
 def tally(res, ops, preds, cut_at, h):
     res.evaluations += 1
     res.ops += len(ops)
@@ -250,7 +256,9 @@ def tally(res, ops, preds, cut_at, h):
                 k = 'accepted' if pr.accepted else (pr.reports[0]['kind'] if pr.reports else 'other')
                 res.calls[k] = res.calls.get(k, 0) + 1
     for t in trig:
-        res.trig_hashes.setdefault(t, set()).add(h)
+        res.trig_counts[t] = res.trig_counts.get(t, 0) + 1
+        if KEEP_TAGS is None or t in KEEP_TAGS:
+            res.trig_hashes.setdefault(t, set()).add(h)
 
 
 def worker(args):
@@ -263,7 +271,9 @@ def worker(args):
 
 
 def _worker(args):
-    prop, exe, metapath, spec, seed, chunk, count, batch = args
+    global KEEP_TAGS
+    prop, exe, metapath, spec, seed, chunk, count, batch, keep = args
+    KEEP_TAGS = keep
     meta = json.load(open(metapath))
     res = Result()
     rng = random.Random((seed * 1000003 + chunk * 7919 + zlib.crc32(repr(spec).encode()) % 1000) & 0xffffffff)
@@ -294,7 +304,7 @@ def _worker(args):
     return res
 
 
-def run_plan(prop, plan, seed, config='asan', jobs=None):
+def run_plan(prop, plan, seed, config='asan', jobs=None, keep=None):
     """plan: list of (spec, count, nchunks). Returns merged Result."""
     exe, meta = build_driver(config)
     metapath = os.path.join(os.path.dirname(exe), 'src', 'shapes.json')
@@ -303,7 +313,7 @@ def run_plan(prop, plan, seed, config='asan', jobs=None):
     for spec, count, nchunks in plan:
         per = max(1, count // nchunks) if spec[0] == 'random' else count
         for c in range(nchunks):
-            tasks.append((prop, exe, metapath, spec, seed, c, per, 150))
+            tasks.append((prop, exe, metapath, spec, seed, c, per, 150, keep))
     total = Result()
     with Pool(min(jobs, len(tasks))) as pool:
         for r in pool.imap_unordered(worker, tasks):
